@@ -11,8 +11,12 @@ import (
 	sdkmath "cosmossdk.io/math"
 	"github.com/cosmos/cosmos-sdk/store/prefix"
 	sdk "github.com/cosmos/cosmos-sdk/types"
+	authtypes "github.com/cosmos/cosmos-sdk/x/auth/types"
 	"github.com/cosmos/cosmos-sdk/x/authz"
+	bankkeeper "github.com/cosmos/cosmos-sdk/x/bank/keeper"
+	banktypes "github.com/cosmos/cosmos-sdk/x/bank/types"
 
+	"github.com/sge-network/sge/app/params"
 	"github.com/sge-network/sge/utils"
 	"github.com/sge-network/sge/x/bet"
 	betkeeper "github.com/sge-network/sge/x/bet/keeper"
@@ -354,7 +358,36 @@ type coreMarket struct {
 
 // runCore: histories of market add/update/resolve, house deposit/withdraw (own and delegated), wagers and
 // end-blocks against the real message servers and end-blockers of market, house, bet and orderbook.
+// custodyBlockedProbe: the custody module accounts (and x/mint's account) are blocked recipients of the bank module: a
+// plain MsgSend into them is refused (the core model's `send` refuses module accounts). Asked of the running app, so
+// that the way app wiring builds the blocked set is free.
+func custodyBlockedProbe(out *Out) {
+	e := NewEnv(1_000_000, 4)
+	srv := bankkeeper.NewMsgServerImpl(e.App.BankKeeper)
+	for _, name := range []string{obtypes.OrderBookLiquidityFunder{}.GetModuleAcc(), bettypes.BetFeeCollectorFunder{}.GetModuleAcc(),
+		housetypes.HouseFeeCollectorFunder{}.GetModuleAcc(), "reward_pool", "mint"} {
+		addr := e.App.AccountKeeper.GetModuleAddress(name)
+		if addr == nil {
+			addr = authtypes.NewModuleAddress(name)
+		}
+		blocked := e.App.BankKeeper.BlockedAddr(addr)
+		err, _ := e.Tx(func(ctx sdk.Context) error {
+			_, err := srv.Send(sdk.WrapSDKContext(ctx), &banktypes.MsgSend{FromAddress: e.Accts[1].String(), ToAddress: addr.String(),
+				Amount: sdk.NewCoins(sdk.NewCoin(params.DefaultBondDenom, sdkmath.NewInt(5)))})
+			return err
+		})
+		if !blocked || err == nil {
+			out.Fail(MonFail{Property: "C13", Monitor: "custody_accounts_blocked", Class: "module-account:" + name, History: 0,
+				Detail: fmt.Sprintf("module account %s: BlockedAddr=%v, a plain MsgSend of 5 tokens into it returned %v", name, blocked, err)})
+			out.Fail(MonFail{Property: "C01", Monitor: "custody_accounts_blocked", Class: "module-account:" + name, History: 0,
+				Detail: fmt.Sprintf("module account %s: BlockedAddr=%v, a plain MsgSend of 5 tokens into it returned %v", name, blocked, err)})
+		}
+		out.Count("probe.custody-blocked")
+	}
+}
+
 func runCore(seed uint64, n int, out *Out) {
+	custodyBlockedProbe(out)
 	maxOps := int(envInt("VERIF_CORE_OPS", 60))
 	for h := 0; h < n; h++ {
 		if skipHist(h) {
